@@ -8,6 +8,7 @@ package main
 // that a Go runtime fatal error ("concurrent map writes") is an observation.
 
 import (
+	"time"
 	"bytes"
 	"encoding/json"
 	"fmt"
@@ -697,7 +698,18 @@ func c18Run(c Case) (Result, error) {
 		crashed := false
 		for _, o := range ops {
 			var r c18Res
-			p, msg := catch(func() { r = env.apply(o) })
+			var p bool
+			var msg string
+			done := make(chan struct{})
+			go func() {
+				defer close(done)
+				p, msg = catch(func() { r = env.apply(o) })
+			}()
+			select {
+			case <-done:
+			case <-time.After(20 * time.Second):
+				return Result{}, implViolation("call %d of the sequence (%+v) never returned (20 s): a lock is held or never released after the preceding calls %v", len(items), o, ops[:len(items)])
+			}
 			if p {
 				crashed = true
 				obs = append(obs, map[string]any{"op": o, "panic": msg})
@@ -713,8 +725,15 @@ func c18Run(c Case) (Result, error) {
 	// under the race detector the history is run in-process (one detector runtime, no process start-up
 	// per case); the child process is only for crash isolation
 	if os.Getenv("VH_RACE") == "1" {
-		if _, err := c18RunConcurrent(in); err != nil {
-			return Result{}, err
+		errc := make(chan error, 1)
+		go func() { _, e := c18RunConcurrent(in); errc <- e }()
+		select {
+		case err := <-errc:
+			if err != nil {
+				return Result{}, err
+			}
+		case <-time.After(90 * time.Second):
+			return Result{}, implViolation("the concurrent history did not complete within 90 s (threads %v): some call never returned", in.Threads)
 		}
 		return Result{Coq: fmt.Sprintf("mkCase %d %d %s [] [] false", in.N, in.T, my), Key: string(c.Input), Nontrivial: true}, nil
 	}
@@ -724,7 +743,17 @@ func c18Run(c Case) (Result, error) {
 	cmd.Stdin = bytes.NewReader(c.Input)
 	var so, se bytes.Buffer
 	cmd.Stdout, cmd.Stderr = &so, &se
-	runErr := cmd.Run()
+	runErr := cmd.Start()
+	if runErr == nil {
+		waitDone := make(chan error, 1)
+		go func() { waitDone <- cmd.Wait() }()
+		select {
+		case runErr = <-waitDone:
+		case <-time.After(90 * time.Second):
+			_ = cmd.Process.Kill()
+			return Result{}, implViolation("the concurrent history did not complete within 90 s (threads %v): some call never returned", in.Threads)
+		}
+	}
 	var out c18ChildOut
 	if runErr != nil || json.Unmarshal(so.Bytes(), &out) != nil {
 		first := strings.SplitN(strings.TrimSpace(se.String()), "\n", 2)[0]
